@@ -58,6 +58,10 @@ def _single_ops(t, rng=None, big=False):
         bps = [rng.choice([-5000, -100, -3, -1, 0, 1, 10, 500, 10 ** 7])]
     else:
         avgs, mins, bps = [1, 2, 1.5], [0, 2], [-2, -1, 0, 1, 3]
+        if t and max(r[2] - r[1] for r in t) <= 3:
+            # an average bin size below one base: more bins than bases, so some cuts coincide and bins are EMPTY (dyadic, so the
+            # float quotient is exact) - the round-5 mutant 'skip empty bins in _split_targets' is only visible here
+            avgs = avgs + [0.375]
     for a in avgs:
         for m in mins:
             out.append({"op": "subdivide", "in": {"t": t, "avg": frac(a), "min": m, "avg_f": a}})
